@@ -488,7 +488,19 @@ _ADDED11 = {
            "node literal there sets every field (Namespace.References survives); (NK1) a back end skips a namespace of env.Namespaces only by its IsTopLevel flag, never by its contents; (GC2) see C12.",
     "C19": " (SC1) in the resolution of a bare name the pattern variables in scope are searched before the record's fields and computed fields.",
 }
-for _src in (_ADDED, _ADDED3, _ADDED4, _ADDED5, _ADDED6, _ADDED7, _ADDED8, _ADDED9, _ADDED10, _ADDED11):
+# Clauses added after the twelfth round of independently seeded changes.
+_ADDED12 = {
+    "C01": " (PF1) registered here too; (PM3) see C17.",
+    "C02": " (VS3) a back-end walk that follows ResolvedDefinition keeps no set keyed by GetQualifiedName(): instantiations of one generic share that name; (NH1, CS1) registered here too.",
+    "C03": " (S1) registered here too: an end-of-stream marker is emitted only under the reference guards; (ON1) see C19; (PM3) see C17.",
+    "C08": " (VS3) see C02.",
+    "C09": " (OK1) two results of a (T, bool) function whose verdict was discarded are never compared with each other (both may hold the function's \"nothing\" value).",
+    "C14": " (CW1) registered here too: the C++ integer overloads dispatch by width and signedness; (VS3) see C02; (PM3) see C17.",
+    "C17": " (PM3) outside __init__ no method of a Python *Serializer / *Converter stores on self anything computed from one of its arguments.",
+    "C19": " (ON1) the Python back end emits no bare truthiness test of a formatted value (`if %s:`): presence is tested with `is None`; (OK1) see C09.",
+    "C20": " (I1) registered here too: an import cycle is reported instead of wedging the watcher.",
+}
+for _src in (_ADDED, _ADDED3, _ADDED4, _ADDED5, _ADDED6, _ADDED7, _ADDED8, _ADDED9, _ADDED10, _ADDED11, _ADDED12):
     for _k, _v in _src.items():
         if _k in PROPS:
             PROPS[_k]["explanation"] += _v
